@@ -64,6 +64,16 @@ func genC17Struct(t *rapid.T) *StructCase {
 			scalarKinds: []string{"string", "int", "uint8", "float64", "bool", "int64", "float32"}}
 		g.leafRules = func(string, desc.V) string { return "" }
 		ty, _ := g.genStruct(0)
+		// some members are pointers to scalars (optional fields of generated code): a nil
+		// pointer is empty, and two pointers are equal when they point to equal values
+		walkTypes(&ty, func(st *desc.T) {
+			for i := range st.Fields {
+				f := &st.Fields[i]
+				if f.T.Elem == nil && f.T.K != "struct" && f.T.K != "time" && rapid.IntRange(0, 3).Draw(t, "ptrMember") == 0 {
+					f.T = desc.Ptr(f.T)
+				}
+			}
+		})
 		walkTypes(&ty, func(st *desc.T) { forceGroups(t, st) })
 		c := &StructCase{Root: desc.Ptr(ty), Val: desc.V{E: []desc.V{g.genValueFor(ty, 0)}}}
 		if rapid.Bool().Draw(t, "mapTop") {
@@ -89,9 +99,17 @@ func genC17Struct(t *rapid.T) *StructCase {
 
 // forceGroups is addGroups without the coin flip.
 func forceGroups(t *rapid.T, ty *desc.T) {
+	kindKey := func(ft desc.T) string {
+		if ft.K == "ptr" {
+			return "ptr:" + ft.Elem.K
+		}
+		return ft.K
+	}
 	var scal []int
 	for i, f := range ty.Fields {
-		if f.T.Elem == nil && f.T.K != "struct" && f.T.K != "time" && f.Name[0] >= 'A' && f.Name[0] <= 'Z' {
+		scalar := f.T.Elem == nil && f.T.K != "struct" && f.T.K != "time"
+		ptrScalar := f.T.K == "ptr" && f.T.Elem.Elem == nil && f.T.Elem.K != "struct" && f.T.Elem.K != "time" && f.T.Elem.K != "named"
+		if (scalar || ptrScalar) && f.Name[0] >= 'A' && f.Name[0] <= 'Z' {
 			scal = append(scal, i)
 		}
 	}
@@ -101,11 +119,11 @@ func forceGroups(t *rapid.T, ty *desc.T) {
 	n := rapid.IntRange(1, 2).Draw(t, "nGroups")
 	for g := 1; g <= n; g++ {
 		kind := rapid.SampledFrom([]string{"either", "botheq"}).Draw(t, "groupKind")
-		want := ty.Fields[scal[rapid.IntRange(0, len(scal)-1).Draw(t, "kindOf")]].T.K
+		want := kindKey(ty.Fields[scal[rapid.IntRange(0, len(scal)-1).Draw(t, "kindOf")]].T)
 		id := rapid.IntRange(1, 2).Draw(t, "groupID") // ids may coincide across kinds
 		for _, i := range scal {
 			f := &ty.Fields[i]
-			if f.T.K != want || rapid.IntRange(0, 3).Draw(t, "member") == 0 {
+			if kindKey(f.T) != want || rapid.IntRange(0, 3).Draw(t, "member") == 0 {
 				continue
 			}
 			if f.Tags == nil {
